@@ -41,6 +41,8 @@ type c17RCase struct {
 	// Triggers > 1: the same job object is triggered Triggers times back to back (a cron schedule shorter than
 	// the retry delay, a burst of on-change events): several failing executions end inside one retryDelay window
 	Triggers int `json:"triggers,omitempty"`
+	// Kind: job type of the trigger ("" = incremental)
+	Kind string `json:"kind,omitempty"`
 }
 
 func c17RerunList(tier string) []c17RCase {
@@ -53,6 +55,7 @@ func c17RerunList(tier string) []c17RCase {
 		{K: 3, B: 1, MaxRetries: 3, DelayMs: 1000, FailRuns: 99},
 		{K: 3, B: 3, MaxRetries: 2, DelayMs: 1000, FailRuns: 0},
 		{K: 6, B: 2, MaxRetries: 2, DelayMs: 1000, FailRuns: 99, Kill: true},
+		{K: 6, B: 2, MaxRetries: 2, DelayMs: 1000, FailRuns: 0, Kill: true, Kind: "fullsync"},
 		// killed after the log handler has already dealt with a rejected entity of this run
 		{K: 6, B: 1, Log: true, LogFirst: true, MaxRetries: 2, DelayMs: 1000, Fail: []int{0}, Kill: true, KillAt: 2},
 		// three triggers of a permanently failing job inside one retry delay
@@ -102,6 +105,9 @@ func c17RerunList(tier string) []c17RCase {
 				// kill
 				out = append(out, c17RCase{K: k + 2, B: 1, MaxRetries: r, DelayMs: d, FailRuns: 99, Kill: true})
 				out = append(out, c17RCase{K: k + 2, B: 2, Log: true, MaxRetries: r, DelayMs: d, FailRuns: 0, Kill: true})
+				// a killed FULL SYNC (the pipeline types end a cancelled run in their own code)
+				out = append(out, c17RCase{K: k + 2, B: 2, MaxRetries: r, DelayMs: d, FailRuns: 0, Kill: true, Kind: "fullsync"})
+				out = append(out, c17RCase{K: k + 3, B: 1, Log: true, LogFirst: r%2 == 0, MaxRetries: r, DelayMs: d, Fail: []int{0}, Kill: true, KillAt: 2, Kind: "fullsync"})
 				// kill after rejections were already handled in the killed run: [e0] rejected+reported, kill at e1's request
 				out = append(out, c17RCase{K: k + 3, B: 1, Log: true, LogFirst: r%2 == 1, MaxItems: 0, MaxRetries: r, DelayMs: d, Fail: []int{0}, Kill: true, KillAt: 2})
 				// [e0,e1] rejected, [e0] accepted, [e1] rejected+reported, kill at [e2,e3]
@@ -166,6 +172,9 @@ func c17Rerun(ctx *Ctx) error {
 		if c.Triggers > 1 {
 			tags = append(tags, "several-triggers-within-retry-delay")
 		}
+		if c.Kind == "fullsync" {
+			tags = append(tags, "fullsync")
+		}
 		if c.Kill {
 			tags = append(tags, "kill")
 			if c.KillAt > 1 && len(c.Fail) > 0 {
@@ -195,8 +204,8 @@ func (st *c17State) runRerun(caseID string, pos int, c c17RCase) {
 	var evs []c17Ev
 	viol := func(class, msg string, exp, got any) {
 		out.Stat("viol:"+class, 1)
-		out.Viol(caseID, "C17", class, fmt.Sprintf("k=%d b=%d log=%v maxItems=%d maxRetries=%d delay=%dms failRuns=%d fail=%v kill=%v@%d transform=%v triggers=%d: %s",
-			c.K, c.B, c.Log, c.MaxItems, c.MaxRetries, c.DelayMs, c.FailRuns, c.Fail, c.Kill, c.KillAt, c.Transform, c.Triggers, msg), exp, got, map[string]any{"events": c17HeadEv(evs, 160)})
+		out.Viol(caseID, "C17", class, fmt.Sprintf("k=%d b=%d log=%v maxItems=%d maxRetries=%d delay=%dms failRuns=%d fail=%v kill=%v@%d transform=%v triggers=%d %s: %s",
+			c.K, c.B, c.Log, c.MaxItems, c.MaxRetries, c.DelayMs, c.FailRuns, c.Fail, c.Kill, c.KillAt, c.Transform, c.Triggers, c.Kind, msg), exp, got, map[string]any{"events": c17HeadEv(evs, 160)})
 	}
 	src, err := st.ensureSource(c.K)
 	if err != nil {
@@ -227,7 +236,11 @@ func (st *c17State) runRerun(caseID string, pos int, c c17RCase) {
 			onErr = []map[string]any{rr, lg}
 		}
 	}
-	cfg, js, err := st.h.c10AddPaused(st.jobJSON(jobID, src, "incremental", c.B, c.Transform, "@every 24h", true, onErr))
+	kind := c.Kind
+	if kind == "" {
+		kind = "incremental"
+	}
+	cfg, js, err := st.h.c10AddPaused(st.jobJSON(jobID, src, kind, c.B, c.Transform, "@every 24h", true, onErr))
 	if err != nil || len(js) != 1 {
 		out.Inconclusive(caseID, "C17", fmt.Sprintf("cannot configure job: %v", err))
 		return
@@ -359,8 +372,8 @@ func (st *c17State) runRerun(caseID string, pos int, c c17RCase) {
 		for _, e := range run {
 			if e.Kind == "end" {
 				s.endNs = e.Ns
-				if e.Msg == "terminated" {
-					s.killed = true
+				if e.Msg == "terminated" || e.Msg == "interrupted" {
+					s.killed = true // logged as terminated, or ended with the interrupt error of a cancelled context
 				}
 			}
 		}
@@ -419,13 +432,17 @@ func (st *c17State) runRerun(caseID string, pos int, c c17RCase) {
 	} else if triggers > 1 {
 		out.Stat("multi_trigger_reruns_within_budget", 1)
 	}
+	kindSfx := ""
+	if c.Kind == "fullsync" {
+		kindSfx = "/fullsync"
+	}
 	for ri := 1; ri < nexec; ri++ {
 		if triggers > 1 && !handlerMade[ri] {
 			continue // started by a trigger of the scenario, not by the handler
 		}
 		prev := sums[ri-1]
 		if prev.killed && prev.end != "terminated" {
-			viol("rerun-after-kill", fmt.Sprintf("run %d was re-executed although run %d was killed (the hub logged its termination, then recorded %q)", ri+1, ri, prev.end), "no re-execution", nexec)
+			viol("rerun-after-kill"+kindSfx, fmt.Sprintf("run %d was re-executed although run %d was killed (it ended on the kill: logged as terminated or failed with the interrupt error; recorded as %q)", ri+1, ri, prev.end), "no re-execution", nexec)
 		}
 		if prev.clean && prev.end != "finished" {
 			viol("rerun-after-success/clean-execution-recorded-failed", fmt.Sprintf("run %d was re-executed although in run %d the sink accepted everything and nothing was reported (recorded as %q)", ri+1, ri, prev.end), "no re-execution", nexec)
@@ -434,7 +451,7 @@ func (st *c17State) runRerun(caseID string, pos int, c c17RCase) {
 		case "finished":
 			viol("rerun-after-success", fmt.Sprintf("run %d was re-executed although run %d ended without an error", ri+1, ri), "no re-execution", nexec)
 		case "terminated":
-			viol("rerun-after-kill", fmt.Sprintf("run %d was re-executed although run %d was killed", ri+1, ri), "no re-execution", nexec)
+			viol("rerun-after-kill"+kindSfx, fmt.Sprintf("run %d was re-executed although run %d was killed", ri+1, ri), "no re-execution", nexec)
 		case "failed-late":
 			if prev.rej == 0 {
 				out.Stat("rerun_after_run_without_any_rejection", 1)
